@@ -35,10 +35,11 @@ PROGS = {
                        ["abs", 10.0, 5, "a10"], ["abs", 12.0, 5, "a12"]],
               "handlers": {"a1": [["rel", 0.5, 5, "b1"]], "a2": [["now", 5, "b2"]], "a6": [["rel", 2.0, 5, "b8"], ["abs", 9.0, 1, "b9"]],
                            "b8": [["rel", 0.0, 5, "c8"]]}, "mid": 4.5},
-    "int": {"clock": "int", "rep": {"start": 0, "warmup": 2, "length": 10},
-            "init": [["abs", 1, 5, "a1"], ["abs", 2, 5, "a2"], ["abs", 2, 10, "a2p"], ["abs", 3, 5, "a3"], ["abs", 6, 5, "a6"], ["abs", 10, 5, "a10"],
-                     ["abs", 11, 5, "a11"]],
-            "handlers": {"a1": [["rel", 1, 5, "b2"]], "a6": [["rel", 2, 5, "b8"], ["now", 3, "b6"]]}, "mid": 4},
+    # non-zero start time: absolute times, the warm-up time and the end are all offset by 3
+    "int": {"clock": "int", "rep": {"start": 3, "warmup": 2, "length": 10},
+            "init": [["abs", 4, 5, "a1"], ["abs", 5, 5, "a2"], ["abs", 5, 10, "a2p"], ["abs", 6, 5, "a3"], ["abs", 9, 5, "a6"], ["abs", 13, 5, "a10"],
+                     ["abs", 14, 5, "a11"]],
+            "handlers": {"a1": [["rel", 1, 5, "b2"]], "a6": [["rel", 2, 5, "b8"], ["now", 3, "b6"]]}, "mid": 7},
     "duration": {"clock": "duration", "rep": {"start": [0.0, "s"], "warmup": [2.5, "s"], "length": [10.0, "s"]},
                  "init": [["abs", [1.0, "s"], 5, "a1"], ["abs", [0.05, "min"], 5, "a3"], ["abs", [6000.0, "ms"], 5, "a6"], ["abs", [10.0, "s"], 5, "a10"],
                           ["abs", [0.2, "min"], 5, "a12"]],
